@@ -6,6 +6,10 @@ Tie: T + K.
      lean/PyrollProps/C12.lean), the shape of the two shallow copy constructors, every write of the functions that make
      up `solve`, what `init_solve` stores and what `solve` returns (certified by `decide` against the shape the
      hand-written model assumes).
+     Also read: the FORM of `Unit.init_solve`'s `if not self.out_profile: ... [else: ...]` (`Gen.C12.outReuse`): no else
+     branch = a re-used out-profile is kept as it is; the else branch that deletes outdated entries / sets the incoming
+     profile's non-root-hook entries / fills in missing root-hook entries = hand-over; any other shape is a broken tie.
+     The model's `ensureOut` follows the value read, so the same check is green on a tree of either form.
   K  hand-written model lean/PyrollModel/Heap.lean (objects with identity, strong fields, weak back-links; solve as an
      effect trace; deep copy with memo; list edits).  One case = one HISTORY on real objects: build 1-2 caller
      profiles, grooves, roll templates (optionally looked at by the caller before use, optionally ONE Roll object for
@@ -56,6 +60,10 @@ ASSUMPTIONS = [
     "implementation's own log messages)",
     "the effect trace of solve is as good as the hand-written model: it is tied to the code by the sampled comparison "
     "of written objects and aliasing graphs (K) and by the translated write list / producers (T)",
+    "the form of Unit.init_solve's treatment of a re-used out-profile is read from the source (keep / hand-over); WHICH "
+    "names are root hooks of an out-profile (the registry `root_hooks`) is hand-written in the model as far as it has them "
+    "(cross_section, classifiers, t; of a pass also technologically_orientated_cross_section) and tied by the sampled "
+    "comparison of the aliasing graphs after re-solves",
     "hook value caches are modelled as MAY-effects (which names a solve caches depends on the registered hook "
     "functions): the model says on which objects a cache can change, the comparison checks that the implementation "
     "changes no other; what the caller's own reading caches is an input of the model (observed on the implementation)",
@@ -1243,6 +1251,18 @@ CORPUS = [
     [("p", ("profile", "3", ["my_tags"])), ("a", ("pass", "3", 0, True, 0, 1.0)), ("t", ("transport", 0, False, True)),
      ("b", ("pass", "3", 1, True, 0, 1.0)), ("s", ("seq", ["$a", "$t", "$b"])), ("r", ("solve", "$s", "$p")),
      ("c", ("deepcopy", "$s")), (None, ("solve", "$s", "$r"))],
+    # the re-used out-profiles and the caller profile of the CURRENT solve (the history of the Lean examples `exL2` /
+    # `exW`, PyrollProps/C12.lean section 6): a sequence and a lone transport solved with a profile that has a material
+    # list and a tag set, then with one that has another material list and no tag set, then with the first again.
+    # Form `keep` of `init_solve` (no else branch): the first profile's entries stay in every out-profile; form
+    # `handOver`: the current profile's entries replace them, the tag set goes and comes back.  The model follows
+    # whichever form the translator read (`Gen.C12.outReuse`), the aliasing graphs are compared after every solve
+    [("p", ("profile", "A", ["material", "my_tags"])), ("q", ("profile", "A", ["material"])),
+     ("a", ("pass", "A", 0, True, 0, 1.0)), ("t", ("transport", 1, False, False)), ("s", ("seq", ["$a", "$t"])),
+     ("l", ("transport", 0, False, False)), ("ls", ("seq", ["$l"])),
+     (None, ("solve", "$s", "$p")), (None, ("keep", "$t")), (None, ("solve", "$s", "$q")), (None, ("keep", "$a")),
+     (None, ("solve", "$s", "$p")), (None, ("solve", "$ls", "$p")), (None, ("solve", "$l", "$q")),
+     (None, ("solve", "$ls", "$p")), (None, ("solve", "$t", "$q"))],
 ]
 
 
